@@ -87,5 +87,6 @@ if ok:
         old = json.load(open(dst + "/meta.json"))
         for k, v in old.get("checks", {}).items():
             meta["checks"].setdefault(k, v)
+        meta["detected_by"] = [p for p, v in meta["checks"].items() if v["exit"] == 1]
     json.dump(meta, open(dst + "/meta.json", "w"), indent=1)
     print("saved", dst, "detected_by", meta["detected_by"])
